@@ -11,13 +11,36 @@ BOM = b"\xef\xbb\xbf"
 # ------------------------------------------------------------------ known-finding classes (findings/C17.json)
 # (repaired in /repo and therefore violations again if they return: unterminated-last-record,
 #  clear-completed-drops-empty-leading-fields, multi-file-unterminated-carry-over,
-#  boolean-word-mixed-column, inference-sample-without-end-of-input, bom-split-across-first-read; their witnesses
-#  are replayed in every run: stage_regress through SQL, the BOM witnesses as hand-picked decoder cases (every 1- and
-#  2-cut chunking) and reader cases with read buffers 1 and 2.
+#  boolean-word-mixed-column, inference-sample-without-end-of-input, bom-split-across-first-read,
+#  multi-file-bom-in-later-file, sample-without-data-record; their witnesses are replayed in every run: stage_regress
+#  through SQL, the BOM witnesses as hand-picked decoder cases (every 1- and 2-cut chunking) and reader cases with
+#  read buffers 1 and 2, the multi-file witnesses as the `mf` cases of stage_sql (also against the queue model).
 #  Not findings (definitional; the spec follows the documented engine behaviour): blank lines are skipped (csv_core
 #  documents it, slt/csv/infer/empty_middle_line.slt pins it); an empty field in the first record fails its typed
 #  column and so marks a header (reader.rs module doc, slt/csv/infer/empty_header_names.slt).)
-K_MFBOM = "multi-file-bom-in-later-file"
+
+
+# ------------------------------------------------------------------ constants of ReadCsv::bind, read from the source
+def bind_consts():
+    """(INFER_BUF_SIZE, MAX_INFER_BUF_SIZE) of crates/glaredb_ext_csv/src/functions/read_csv.rs; None if not found"""
+    try:
+        src = open(os.path.join(common.REPO, "crates/glaredb_ext_csv/src/functions/read_csv.rs")).read()
+    except OSError:
+        return None
+    out = []
+    for name in ("INFER_BUF_SIZE", "MAX_INFER_BUF_SIZE"):
+        m = re.search(r"const %s: usize = ([0-9 *]+);" % name, src)
+        if not m:
+            return None
+        v = 1
+        for t in m.group(1).split("*"):
+            v *= int(t.strip())
+        out.append(v)
+    return tuple(out)
+
+
+CONSTS = bind_consts() or (4096, 4 * 1024 * 1024)
+INIT, MAXBUF = CONSTS
 
 
 # ------------------------------------------------------------------ generators
@@ -310,11 +333,11 @@ def narrowest(vals):
 
 def stage_types(files, ireal, gm):
     """property: each column is typed by the narrowest of Boolean < Int64 < Float64 < Utf8 that accepts every sampled
-    non-empty value (rows after the first).  Files shorter than the 4096-byte sample buffer (the sample is the file)."""
+    non-empty value (rows after the first).  Files shorter than the sample buffer (the sample is the file)."""
     sel, lines = [], []
     for f, r in zip(files, ireal):
         data = f["bytes"]
-        if len(data) >= 4096 or "schema" not in r or "err" in r["schema"]:
+        if len(data) >= INIT or "schema" not in r or "err" in r["schema"]:
             continue
         d = r["dialect"] or [44, 34]
         if (d[0], d[1]) != (f["delim"], f["quote"]):
@@ -350,11 +373,29 @@ def stage_reader(ctx, rng, gv, gm):
     files += [dict(gen_file(rng, "tiny"), bytes=b"a|b\n1|2", delim=124, quote=34, header=True)]
     files += [dict(gen_file(rng, "tiny"), bytes=BOM + b"a,b\n1,2\n3,4\n", delim=44, quote=34, header=True),
               dict(gen_file(rng, "tiny"), bytes=BOM + b"7\n1\n", delim=44, quote=34, header=False)]
-    icases = [{"id": "i%d" % i, "hex": f["bytes"].hex()} for i, f in enumerate(files)]
+    icases = [{"id": "i%d" % i, "hex": f["bytes"].hex(), "init": INIT, "max": MAXBUF} for i, f in enumerate(files)]
     ireal = common.run_harness(gv, "infer", icases, timeout=600)
     # model: bind + scan as written (read_buf larger than the file, batch 2048)
-    mscan = common.run_model(gm, "scan", ["2048 100000000 4096 %s" % hx(f["bytes"]) for f in files], timeout=900)
+    mscan = common.run_model(gm, "scan", ["2048 100000000 %d %d %s" % (INIT, MAXBUF, hx(f["bytes"])) for f in files], timeout=900)
     corr, viol, known = [], [], {}
+    # the growing sample of bind with a small first read / limit (16 / 128 bytes), so that small files take every path:
+    # enough at once, grown until two records, grown to the end of the file, stopped at the limit
+    small = [f for f in files if len(f["bytes"]) < 600][:150]
+    sreal = common.run_harness(gv, "infer", [{"id": "s%d" % i, "hex": f["bytes"].hex(), "init": 16, "max": 128} for i, f in enumerate(small)], timeout=600)
+    smodel = common.run_model(gm, "scan", ["2048 100000000 16 128 %s" % hx(f["bytes"]) for f in small], timeout=900)
+    for f, r, m in zip(small, sreal, smodel):
+        mp = m.split(" ")
+        if "panic" in r:
+            viol.append({"kind": "inference-panic", "hex": f["bytes"].hex(), "init": 16, "max": 128, "result": r})
+        elif mp[0] != "OK" or "err" in r.get("schema", {"err": 1}):
+            if not (mp[0] == "BINDERR" and "err" in r.get("schema", {})):
+                corr.append({"what": "infer(16,128)", "hex": f["bytes"].hex(), "real": r, "model": m[:200]})
+        else:
+            sch = r["schema"]
+            got = ("none" if r["dialect"] is None else "%d,%d" % tuple(r["dialect"]), int(sch["has_header"]), ",".join(t for _, t in sch["cols"]),
+                   ",".join(("x" + n) for n, _ in sch["cols"]) if sch["has_header"] else None)
+            if got != (mp[1], int(mp[2]), mp[3], mp[4] if mp[2] == "1" else None):
+                corr.append({"what": "infer(16,128)", "hex": f["bytes"].hex(), "real": r, "model": " ".join(mp[:5])})
     ty = stage_types(files, ireal, gm)
     viol += ty["violations"]
     known.update(ty["known"])
@@ -490,7 +531,8 @@ def stage_sql(ctx, rng, gsql, gm):
     # multi-file: a file without final terminator followed by another one in the same partition
     mf = []
     for j, (a, b) in enumerate([(b"1,2\n3,4\n5,6", b"7,8\n9,10\n"), (b"a,b\n1,2\n3,4", b"a,b\n7,8\n9,10\n"), (b"1,2\n3,4\n", b"7,8\n9,10\n"),
-                                (b"1,2\n3,4\n", BOM + b"7,8\n9,10\n"), (BOM + b"1,2\n3,4\n", b"7,8\n9,10\n")]):
+                                (b"1,2\n3,4\n", BOM + b"7,8\n9,10\n"), (BOM + b"1,2\n3,4\n", b"7,8\n9,10\n"),
+                                (b"1,2\n3,4", BOM + b"7,8\n9,10"), (BOM + b"a,b\n1,2\n3,4", BOM + b"a,b\n7,8\n9,10\n")]):
         pa, pb = os.path.join(CSVDIR, "m%da.csv" % j), os.path.join(CSVDIR, "m%db.csv" % j)
         open(pa, "wb").write(a)
         open(pb, "wb").write(b)
@@ -501,7 +543,7 @@ def stage_sql(ctx, rng, gsql, gm):
              "stmts": ["set partitions to 1", "select count(*), sum(%s), count(c) from read_csv('%s')" % ("a" if b["kind"] == "A" else b["path"] and "b" * 58, b["path"]),
                        "select b from read_csv('%s') where a = 65535 or a = 65536" % b["path"] if b["kind"] == "A" else "select 1"]} for b in bigs]
     real = common.run_harness(gsql, "sql", [{k: v for k, v in c.items() if k not in ("meta", "a", "b")} for c in cases + mf + bigq], timeout=1500)
-    mscan = common.run_model(gm, "scan", ["%d 4194304 4096 %s" % (c["meta"]["batch"], hx(f["bytes"])) for c, f in zip(cases, files)], timeout=900)
+    mscan = common.run_model(gm, "scan", ["%d 4194304 %d %d %s" % (c["meta"]["batch"], INIT, MAXBUF, hx(f["bytes"])) for c, f in zip(cases, files)], timeout=900)
     viol, known, corr = [], {}, []
     nq, distinct = 0, set()
     spec_lines, spec_idx = [], []
@@ -517,7 +559,7 @@ def stage_sql(ctx, rng, gsql, gm):
             continue
         sel, desc = res[2], res[3] if len(res) > 3 else {}
         mp = m.split(" ")
-        distinct.add((f["delim"], f["quote"], f["header"], c["meta"]["batch"], c["meta"]["parts"], len(f["bytes"]) > 4096))
+        distinct.add((f["delim"], f["quote"], f["header"], c["meta"]["batch"], c["meta"]["parts"], len(f["bytes"]) > INIT))
         if mp[0] != "OK":
             if sel.get("ok"):
                 corr.append(dict(replay, what="model says %s" % mp[0], real=str(sel)[:200]))
@@ -591,12 +633,19 @@ def stage_sql(ctx, rng, gsql, gm):
         nq += 1
         a, b = bytes.fromhex(c["a"]), bytes.fromhex(c["b"])
         res = (r.get("results") or [{}])[-1]
-        hdr = a.startswith(b"a,b")
-        want = [["I%s" % x.decode() for x in l.split(b",")] for l in (strip_bom(a).split(b"\n") + strip_bom(b).split(b"\n")) if l and l != b"a,b"]
-        ok = res.get("ok") and res.get("rows") == want
-        if not ok and b.startswith(BOM) and not res.get("ok") and "Failed to parse '\ufeff" in str(res.get("err")):
-            known.setdefault(K_MFBOM, {"files_hex": [c["a"], c["b"]], "stmts": c["stmts"], "got": res.get("err")})
-        elif not ok:
+        hdr = strip_bom(a).startswith(b"a,b")
+        # per-file independence: the rows are those of each file read alone (spec: rfc4180 per file), in queue order
+        per_file = [parse_recs(x) for x in common.run_model(gm, "spec", ["44 34 %s" % hx(strip_bom(x)) for x in (a, b)])]
+        types = ["Int64", "Int64"]
+        want = typed_rows(types, [r for recs in per_file for r in (recs[1:] if hdr else recs)])
+        got = res.get("rows") if res.get("ok") else "ERR"
+        ok = got == want
+        mq = common.run_model(gm, "queue", ["44 34 %d %s 2048 4194304 %s;%s" % (hdr, ",".join(types), hx(a), hx(b))])[0]
+        mrec = parse_recs(mq)
+        mrows = "ERR" if mrec == "ERR" else (mrec if isinstance(mrec, str) else typed_rows(types, [[x or b"" for x in row] for row in mrec]))
+        if got != mrows:
+            corr.append({"what": "file queue", "files_hex": [c["a"], c["b"]], "real": str(res)[:300], "model": mq[:200]})
+        if not ok:
             viol.append({"kind": "multi-file-rows", "files_hex": [c["a"], c["b"]], "stmts": c["stmts"], "got": str(r)[:300], "want": want})
     for b, q, r in zip(bigs, bigq, real[len(cases) + len(mf):]):
         nq += 1
@@ -627,6 +676,10 @@ REGRESS = [
     ("blank-line (documented: skipped)", b"x\n1\n\n3\n", [["x", "Int64"]], [["I1"], ["I3"]]),
     ("empty header names (documented rule; pinned by slt/csv/infer/empty_header_names.slt)", b",,\n1,mario,4\n2,peach,8\n",
      [["", "Int64"], ["", "Utf8"], ["", "Int64"]], [["I1", "Smario", "I4"], ["I2", "Speach", "I8"]]),
+    ("sample-without-data-record (first data record ends beyond the first 4096 bytes)", b"a,s\n1," + b"x" * 4098 + b"\n",
+     [["a", "Int64"], ["s", "Utf8"]], [["I1", "S" + "x" * 4098]]),
+    ("sample-without-data-record (header longer than the first 4096 bytes)", b"a," + b"h" * 5000 + b"\n1,2.5\n3,4\n",
+     [["a", "Int64"], ["h" * 5000, "Float64"]], [["I1", "F4004000000000000"], ["I3", "F4010000000000000"]]),
     ("unterminated-last-record", b"a,b\n1,2\n3,4\n5,6", [["a", "Int64"], ["b", "Int64"]], [["I1", "I2"], ["I3", "I4"], ["I5", "I6"]]),
 ]
 
@@ -778,7 +831,7 @@ def run(ctx):
                          "extraction (ExtrOcamlBasic only) + ocaml/csv.ml parsing/printing",
                          "harness/src/bin/gv_csv.rs, harness/src/sql.rs; hook glaredb_ext_csv::verif (re-export of the private decoder module)",
                          "python float()/int() as the oracle for numeric VALUES of fields (the model decides validity, not the value)",
-                         "not modelled: output-capacity round trips (OutputFull/OutputEndsFull) of CsvDecoder::decode, UTF-8 validation, multi-file queue"],
+                         "not modelled: output-capacity round trips (OutputFull/OutputEndsFull) of CsvDecoder::decode, UTF-8 validation, the dealing of files to partitions (C11); the file queue of ONE partition is modelled (read_queue)"],
         "theorems": obligations,
         "evaluations": k1["chunkings"] + k2["compared"] + k3["queries"] + k4["cases"] + k5["cases"],
         "distinct_nontrivial": k1["distinct"] + k2["distinct"] + k3["distinct"],
